@@ -13,6 +13,21 @@ CHECKS = {
     text="Full proof outside one recorded known-finding class: for every well-formed tracefile (any record order, duplicate DA/BRDA, negative counts, BRDA '-'/0/n, leading zeros, LF/CRLF per line, TN/LF/LH/VER/MCDC and unused S/D/F/B keys, names over all bytes but CR/LF) in which no FNDA precedes the FN of its function, the Gallina transcription of parse_lcov returns one record per section whose lines (clamped sums), branch vectors (indexed by branch number, OR of taken>0) and functions (start, executed iff some FNDA is non-zero) are exactly what the records say; the meaning is proved order-free and unique; with branch parsing off no branch data is produced for any byte string; the parser model never panics and never runs out of fuel on any byte string. The model is tied to the code by running both (and the record-level spec, and an independent Python reading) on generated files on every run.",
     note="Trusted: Coq kernel, vm_compute (correspondence), std++; harness and Python renderer/reference; Peekable::take_while consumption and release-mode wrapping folds modelled by hand; String::from_utf8_lossy not modelled (names compared on valid UTF-8 only). Known finding: FNDA before FN rejects the file. No axioms.",
     ref="6/C04"),
+ "C05": dict(
+    technique="Coq proof (output_lcov renders a well-formed record file; C04 soundness + uniqueness of the meaning give parse(output rs) = rs) + vm_compute correspondence of the in-process round trip + CLI chains",
+    text="Full proof: for every result list whose paths/function names contain no CR/LF, numbers in range and non-empty branch vectors, the Gallina parse_lcov applied to the Gallina output_lcov returns exactly the same list (with --branch; without it the same minus branches), the re-exported report is byte-identical, and k round trips change nothing; decimal printing is proved to be read back exactly. Tied to the code by running output_lcov/parse_lcov k times in-process against the model and by chaining the CLI on its own reports.",
+    note="Trusted: Coq kernel, vm_compute (correspondence), std++; harness; hash-map iteration order not modelled (reports compared as record sets); demangling off; path-rewriting side of the property is covered under C11. No axioms.",
+    ref="6/C05"),
+ "C06": dict(
+    technique="Coq proof (composition: stage = records of the aggregated map; add_results over concatenated stages = add_results over all inputs, by associativity of merge; induction over arbitrarily nested shard trees) + CLI differential over random nested partitions",
+    text="Full proof at the level of aggregated maps: for every partition of the inputs into shards and every nesting depth, aggregating the stage outputs equals aggregating all inputs directly (full equality, start lines included), given that each stage's lcov report is re-imported unchanged (C05, with --branch at every stage). The CLI differential runs grcov on 2-6 .info/.xml inputs directly and through random nested shard trees and compares the reports as record sets. Known finding: without --branch, JaCoCo branch data survives a direct run but not an intermediate lcov stage.",
+    note="Trusted: Coq kernel; C01/C05 developments; CLI runs and the Python record reader. The composition theorem assumes the stage round trip (proved in C05 for the model). No axioms.",
+    ref="6/C06"),
+ "C20": dict(
+    technique="Coq proof of grcov's tool glue (trace-returning model of llvm_profiles_to_lcov / consumer branches; std++ list/Permutation reasoning reusing C01's add_results algebra) + vm_compute correspondence on recorded tool results + differential run against real gcc/gcov 12 and recording llvm-profdata/llvm-cov stand-ins through the grcov CLI",
+    text="Partial: proved for all tool behaviours - one merge call whose stdin is exactly the discovered profile occurrences (no duplicates introduced, order-free); each selected binary exported once per merged profile; failing or unparsable exports dropped without affecting the others; the report is the C01 aggregation of the exported data in any order; the GCC worker's report is the aggregation of what gcov wrote, for every split over workers and lock order and both latch regimes. Equality with the toolchain's own account (gcov's per-line counts and function flags) is validated differentially against gcov 12, for thread counts 1/2/4; the tools themselves are not modelled.",
+    note="Trusted: Coq kernel, vm_compute, gcc/gcov 12, the driver's gcov/lcov readers, the stub tools. The ignore walker, infer::is_app and the file system enter as data. The SingleFile latch branch is proved but unreachable with gcov 12. Two known findings (duplicate JSON line entries; walker standard filters). No axioms.",
+    ref="6/C20"),
  "C16": dict(
     technique="Coq proof (induction over the source lines: loop flag recurrence = declarative start..stop region) + vm_compute correspondence with FileFilter::create and the filter application",
     text="Full proof for the decision logic: for every sequence of source lines (each abstracted to the six regex verdicts), every coverage record and every line index inside the file, the line count is removed iff the line matches the line marker or lies in a start(inclusive)..stop(exclusive) region, independently the same for branches; numbers outside the file and all functions are untouched; no option or unreadable source = identity. Tied to the code by running FileFilter::create on generated sources (all marker placements, option subsets, LF/CRLF) and comparing filters and resulting records with the model and with an independent reading of the property.",
